@@ -10,8 +10,8 @@
    bounded by the requested error times the conditioning of the system.
    lump_gen and recover_gen are regenerated from the Go source on every run. *)
 From Coq Require Import ZArith QArith Qabs List Bool Arith Lia.
-From Inkfem Require Import Num.NumOps Gen.GenLoads Gen.GenRecover Spec.Stiffness Spec.Beam
-  Model.Types Model.Slice Model.Dof Model.Assemble Model.Recover Proofs.RecoverProofs Proofs.FieldProofs.
+From Inkfem Require Import Num.NumOps Gen.GenStiffness Gen.GenLoads Gen.GenRecover Spec.Stiffness Spec.Beam Spec.Superposition
+  Model.Types Model.Slice Model.Dof Model.Assemble Model.Recover Proofs.RecoverProofs Proofs.FieldProofs Proofs.SystemProofs.
 Import ListNotations.
 Local Open Scope Q_scope.
 
@@ -56,6 +56,19 @@ Theorem C01_field_across_node : forall b u n0 n1 n2 d0 d1 d2 p1 q1 p2 q2 p1' q1'
   M_of EI (snd g) 0 == M_of EI (snd f) l - t_mz (pn_ext n1).
 Proof. exact field_across_node. Qed.
 Print Assumptions C01_field_across_node.
+
+(* the hypothesis node_equilibrium of C01_field_across_node is not an assumption about the structure:
+   it is what the interior rows of the system say.  Whatever u solves the system the model hands to
+   the solver, every interior slice node of every bar is in equilibrium (hypotheses computed, and
+   evaluated on the implementation's own sliced structures by correspondence stage D) - so the
+   element fields of a solved structure join into one C1 field per bar whose section forces jump
+   by exactly the concentrated loads *)
+Theorem C01_solved_structure_has_equilibrated_interior_nodes : forall n sup u bars,
+  nums_below_b n bars = true -> interior_private_b n sup bars = true -> forallb slices_sound_b bars = true ->
+  solves n bars sup u ->
+  forall B1 p B2, bars = B1 ++ p :: B2 -> interior_ok (pb_bar p) u (pbar_nds p).
+Proof. exact system_gives_interior_equilibrium_b. Qed.
+Print Assumptions C01_solved_structure_has_equilibrated_interior_nodes.
 
 (* bars that share a joint degree of freedom report the same joint movement (with C16: same
    physical unknown <-> same number) *)
